@@ -50,7 +50,7 @@ class C24(Prop):
 
     # ------------------------------------------------------------------ generation
     def gen(self, rng, tier):
-        k = {"quick": 1, "thorough": 5, "extended": 2}[tier]
+        k = {"quick": 1, "thorough": 3, "extended": 2}[tier]
         cases = []
         ops = list(TEST_FLAGS) + ["checksum", "resolve", "chmod", "mkdir", "read_text", "rmtree", "symlink_to", "hardlink_to",
                                   "size", "glob", "walk", "write_text"]
@@ -72,7 +72,7 @@ class C24(Prop):
             if c["op"] == "walk":
                 c["follow"], c["which"] = rng.random() < 0.3, rng.randrange(2)
             cases.append(c)
-        for _ in range({"quick": 40, "thorough": 160, "extended": 60}[tier]):
+        for _ in range({"quick": 40, "thorough": 100, "extended": 60}[tier]):
             content = rng.choice(["", "x", "hello\n", "two\nlines", hostile(rng, 8), " lead", "trail \n\n", "\ttab\t"])
             cases.append({"f": "fs", "d": name(rng), "file": name(rng), "link": name(rng), "hard": name(rng), "sub": name(rng),
                           "content": content})
@@ -190,11 +190,11 @@ class C24(Prop):
 
         async def w(p, root):
             # non-termination is detected structurally, not by a clock: the tree has at most 3 directories, so a
-            # walk that yields 100 times is going round in circles
+            # walk that yields 12 times is going round in circles
             out = []
             async for a, b, x in p["d"].walk():
                 out.append([str(a), sorted(b), sorted(x)])
-                if len(out) >= 100:
+                if len(out) >= 12:
                     raise _Loops()
             return sorted(out)
         st = [("mkdir", lambda p, r: p["d"].mkdir(mode=0o755, parents=True, exist_ok=True)),
@@ -299,7 +299,7 @@ class C24(Prop):
         names = c["d"] + c["file"] + c["link"] + c["hard"] + c["sub"]
         ws = any(ch.isspace() for ch in names)
         if kind == "result" and rv and rv[0] == "hang":
-            return "hang-whitespace-only-name" if label == "walk" and any(n.strip(" \n") == "" for n in (c["d"], c["sub"])) \
+            return "hang-whitespace-only-name" if label == "walk" and any(n.strip() == "" for n in (c["d"], c["sub"])) \
                 else "hang"
         if kind == "result" and label == "read":
             return "ws-content" if c["content"].strip() != c["content"] else "cr-content" if "\r" in c["content"] else "other"
